@@ -50,7 +50,7 @@ CHECKS = {
          "alpha operations, mapping and conversion, through exact / oversized / cropped / nested / typed destinations, 1 and 4 threads, each run twice with different sentinels: "
          "the hook events of every recorded call (crop resolution, copy fast path, dispatch, super-sampling plan, every temporary image with buffer length before/after and alignment gap, window extents, pass order and offsets, premultiply/divide) are validated step by step against Resizer!Ok/Upd (TraceResize), and TLC checks outside bytes unchanged, inside bytes equal in both runs, source unchanged, destination untouched on errors and zero sizes. "
          "Plans with a single pass whose crop lands inside cropped / nested views and every residue of the row length (vector body vs scalar tail of the alpha kernels) are covered systematically. Api.tla holds the entry-point decision tables "
-         "(operation x source type x destination type x size relation -> Ok / which error) over all pixel-type pairs; TraceApi judges the recorded answer and the untouched destination of every combination, the container life cycle (Image::new zeroed, buffer length, copy, into_vec, typed access only with the own pixel type) and Filter::new. Thorough: + 6k seeded random calls.",
+         "(operation x source type x destination type x size relation -> Ok / which error) over all pixel-type pairs; TraceApi judges the recorded answer and the untouched destination of every combination, the container life cycle (Image::new zeroed, buffer length, copy, into_vec, typed access only with the own pixel type) and Filter::new. Also: same-size (copy path) geometries, fit_into_destination boxes a hair off integers (the boundary between the copy path and a pass), crop boxes narrower than any rational grid, band-splitting sizes with 4 threads into views with left != top. Thorough: + 30k seeded random calls.",
     note="Outside/source bytes are compared via two 31-bit digests. Assignment is inferred from equality under two sentinels (a result equal to both sentinels would be missed).",
     design="4/C05", technique=TECH),
  "C07": dict(
@@ -65,7 +65,7 @@ CHECKS = {
          "rejected and zero calls, reset_internal_buffers, clone) on long-lived Resizers, every call repeated on a fresh one: TLC replays each history per slot -- the logged buffer "
          "length before/after every temporary image and the alignment gap must equal the model's, the hook sequence must be allowed -- and the reused result must equal the fresh one. "
          "Spec -> implementation: TLC's simulator draws call histories from MC_ResizerSim (behaviours of the specification), the harness executes them on one long-lived Resizer and the recorded hook stream is validated again; near-repeat histories "
-         "(same sizes with another crop origin, filter, algorithm, pixel type or alpha flag directly after each other) target state that is keyed too coarsely. "
+         "(same sizes with another crop origin, filter, algorithm, pixel type or alpha flag directly after each other) target state that is keyed too coarsely; stale-scratch histories (a bright first call, then a deep crop / strong down-scale / other alpha setting on the same buffers). "
          "The back-end is selected on a long-lived resizer only when a case asks for another one, and Resizer!BackendOK requires the back-end in force at dispatch, premultiply and divide (hooks) to be the selected one -- also after reset and on clones.",
     note="Results compared via two 31-bit digests. Buffer contents are abstract (written / not written per image); stale *content* is detected only through the result comparison.",
     design="4/C09", technique=TECH),
